@@ -23,6 +23,7 @@ int g_pending;                                  /* I reserved a seat and have no
 int g_ann_ever, g_block_ever;                   /* flags, not counters: retry loops are unbounded */
 int g_wake_calls, g_exit_calls, g_yield_ever;
 long g_last_read;                               /* last value of the word the code under proof has read */
+int g_try_since_clock;                          /* timedlock: a trylock attempt was made since the last clock reading (or the start) */
 
 #define MUTEX_INV (g_A >= 0 && (g_seat == 0 || g_seat == 1) && g_A < (1L << 61) - 2 * g_seat && \
                    (g_i_hold == 0 || g_i_hold == 1) && (g_env_holds == 0 || g_env_holds == 1) && (g_A & 1) == g_i_hold + g_env_holds)
@@ -105,17 +106,19 @@ void exit_contract(int c)
 
 int trylock_contract(myth_mutex_t * mutex)
   __CPROVER_requires(mutex == &M && M.state == g_A && MUTEX_INV && g_i_hold == 0 && g_acq == 0 && g_pending == 0)
-  __CPROVER_assigns(M.state, g_A, g_env_holds, g_i_hold, g_acq)
-  __CPROVER_ensures(M.state == g_A && MUTEX_INV)
+  __CPROVER_assigns(M.state, g_A, g_env_holds, g_i_hold, g_acq, g_try_since_clock)
+  __CPROVER_ensures(M.state == g_A && MUTEX_INV && g_try_since_clock == 1)
   __CPROVER_ensures(__CPROVER_return_value == 0 || __CPROVER_return_value == EBUSY)
   __CPROVER_ensures((__CPROVER_return_value == 0) == (g_i_hold == 1))
   __CPROVER_ensures(g_acq == (g_i_hold ? 1 : 0));
 
 int g_clock_read_ever; long g_now_s, g_now_ns;
+
 int gettime_contract(struct timespec * ts)
   __CPROVER_requires(ts != 0)
-  __CPROVER_assigns(*ts, g_clock_read_ever, g_now_s, g_now_ns)
-  __CPROVER_ensures(__CPROVER_return_value == 0 && g_clock_read_ever == 1)
+  __CPROVER_requires(g_try_since_clock == 1 && "timedlock: an attempt precedes every clock reading (a free mutex is taken even with a past deadline; after a reading within the deadline another attempt follows)")
+  __CPROVER_assigns(*ts, g_clock_read_ever, g_now_s, g_now_ns, g_try_since_clock)
+  __CPROVER_ensures(__CPROVER_return_value == 0 && g_clock_read_ever == 1 && g_try_since_clock == 0)
   __CPROVER_ensures(ts->tv_sec == g_now_s && ts->tv_nsec == g_now_ns && 0 <= g_now_ns && g_now_ns <= 999999999)
   /* monotone clock */
   __CPROVER_ensures(g_now_s > __CPROVER_old(g_now_s) || (g_now_s == __CPROVER_old(g_now_s) && g_now_ns >= __CPROVER_old(g_now_ns)));
@@ -189,7 +192,7 @@ void h_clear_bit(void) {
 void h_timedlock(void) {
   setup(0, 0);
   struct timespec abst; abst.tv_sec = nondet_long(); abst.tv_nsec = nondet_long();
-  g_clock_read_ever = 0; g_now_s = nondet_long(); g_now_ns = nondet_long();
+  g_clock_read_ever = 0; g_try_since_clock = 0; g_now_s = nondet_long(); g_now_ns = nondet_long();
   __CPROVER_assume(0 <= g_now_ns && g_now_ns <= 999999999);
   int r = myth_mutex_timedlock_body(&M, &abst);
   __CPROVER_assert(r == 0 || r == ETIMEDOUT, "timedlock: returns 0 or ETIMEDOUT");
